@@ -16,6 +16,12 @@ def load_corpus(props=None):
         for e in m.MUTANTS:
             if props is None or e["prop"] in props:
                 out.append(e)
+    # independent behaviour-preserving refactoring patches (written by sub-agents): every property must stay silent
+    for path in sorted(glob.glob(os.path.join(HERE, "selftest", "refactors", "*.diff"))):
+        name = os.path.basename(path)[:-5]
+        for pid in [f"C{i:02d}" for i in range(1, 17)]:
+            if props is None or pid in props:
+                out.append({"id": f"refactor-patch-{name}", "prop": pid, "kind": "refactor", "patch": path, "edits": [], "rule": None})
     return out
 
 
@@ -24,7 +30,11 @@ def run_one(entry, repo):
     try:
         for d in ("optimum", "external"):
             shutil.copytree(os.path.join(repo, d), os.path.join(tmp, d), ignore=shutil.ignore_patterns("__pycache__", "build", "*.so"))
-        for rel, old, new in entry["edits"]:
+        if entry.get("patch"):
+            r = subprocess.run(["patch", "-p1", "-s", "-d", tmp, "-i", entry["patch"]], capture_output=True, text=True)
+            if r.returncode != 0:
+                return entry, "STALE", "patch does not apply: " + (r.stdout + r.stderr).strip()[:120]
+        for rel, old, new in entry.get("edits", []):
             p = os.path.join(tmp, rel)
             s = open(p).read()
             if s.count(old) < 1:
